@@ -7,4 +7,6 @@ require (
 	pgregory.net/rapid v1.3.0
 )
 
+require golang.org/x/tools v0.26.0 // indirect
+
 replace gonum.org/v1/gonum => /repo
